@@ -98,4 +98,19 @@ theorem spawn_pairs_are_spawnOf : ∀ a ∈ SpecTables.spawnPairs,
       | some s, some pl => decide (s = spawnOf pl) && !pl.isSpawn
       | _, _ => false) = true := by decide
 
+/-- the hypotheses of `spawn_agrees` are satisfiable: `a |> f, b` is supported as `join!` and as `join_spawn!`, and both
+    expansions exist -/
+example :
+    let mk (c : Comb) : Member := ⟨c, false, .none, [⟨.expr, [.ident "x"]⟩]⟩
+    let p : Input := { branches := [⟨none, [mk .initial, mk .map]⟩, ⟨none, [mk .initial]⟩] }
+    Supported p ⟨false, false, false⟩ ∧ Supported p (spawnOf ⟨false, false, false⟩) ∧
+    (gen p ⟨false, false, false⟩).toOption.isSome = true ∧ (gen p (spawnOf ⟨false, false, false⟩)).toOption.isSome = true := by
+  intro mk p
+  refine ⟨⟨⟨rfl, rfl, ?_, ?_⟩, ?_, ?_⟩, ⟨⟨rfl, rfl, ?_, ?_⟩, ?_, ?_⟩, rfl, rfl⟩
+  all_goals first
+    | (intro b hb; simp only [p, List.mem_cons, List.not_mem_nil, or_false] at hb
+       rcases hb with rfl | rfl <;> exact ⟨_, _, rfl, rfl, rfl⟩)
+    | decide
+    | (intro h; cases h)
+
 end JoinModel.Props.C07
